@@ -156,7 +156,11 @@ Definition apply_call (w : fs) (c : call) : fs * reply :=
       | Some _ => (w, ROk)
       end
   | CWriteAll n c =>
-      match files w n with None => (w, RErr EIO) | Some _ => (set_file w n (Some c), ROk) end
+      match c, files w n with
+      | IImg _ _, _ => (w, RErr EIO)                   (* never issued: only metadata is written this way *)
+      | _, None => (w, RErr EIO)
+      | _, Some _ => (set_file w n (Some c), ROk)
+      end
   | CClose _ => (w, ROk)
   | CRename a b =>
       match files w a with
@@ -463,6 +467,74 @@ Definition create_new_head (g : cfg) (m : mem) (old parent : option dname) (cr :
 
 (** replica.go: createDisk (Snapshot, and the initial head with name "000" on an empty directory).
     The deferred function is [cleanup] on the error exits and [rm_disk oldHead] after success. *)
+(** the deferred function of createDisk on its error exits (done = false) *)
+Definition cd_cleanup (nh : dname) (snap : option dname) (m' : mem) (e : res) : prog (mem * res) :=
+  _ <- rm_disk (Some nh) ;; _ <- rm_disk snap ;; Ret (m', e).
+
+(** the in-memory updates of createDisk, in program order *)
+Definition cd_mem1 (m : mem) (nh : dname) (nd : disk) : mem :=
+  set_disks m (updd (m_disks m) nh (Some nd)).                                  (* diskData[newHead] = &newHeadDisk *)
+Definition cd_mem2 (m : mem) (nh : dname) (nd : disk) (sn : dname) : mem :=
+  let m1 := cd_mem1 m nh nd in set_children m1 (add_child (m_children m1) (Some sn) nh).
+(* diskData[newSnap] = diskData[oldHead] (the same object), then Name/UserCreated/Created/RevisionCounter *)
+Definition cd_mem3 (m2 : mem) (oh sn : dname) (rec : disk) : mem :=
+  set_disks m2 (updd (updd (m_disks m2) sn (Some rec)) oh (Some rec)).
+Definition cd_mem5 (m3 : mem) (oh sn : dname) : mem :=
+  let m4 := update_child m3 oh (Some sn) in
+  set_active m4 (removelast (m_active m4) ++ [sn]).
+Definition cd_memc (ma : mem) (old : option dname) (nh : dname) : mem :=
+  let mb := match old with Some oh => set_disks ma (updd (m_disks ma) oh None) | None => ma end in
+  set_active mb (m_active mb ++ [nh]).
+
+(** createDisk, "if newSnapName != "" { ... }": the snapshot's metadata file *)
+Definition cd_snapmeta (g : cfg) (m : mem) (old snap : option dname) (nh : dname) (nd : disk) (user : bool) (cr : N)
+  : prog (mem * res) :=
+  match old, snap with
+  | Some oh, Some sn =>
+      let m2 := cd_mem2 m nh nd sn in
+      rv <- get_rev ;;
+      match m_disks m2 oh with
+      | None => Abort Fatal                            (* nil dereference; not reachable with consistent memory *)
+      | Some x =>
+          let rec := mkdisk (d_parent x) (d_removed x) user cr rv in
+          let m3 := cd_mem3 m2 oh sn rec in
+          e3 <- encode_to_file g (IDisk rec) (Meta sn) ;;
+          if negb (is_ok e3) then Ret (m3, Failed) else Ret (cd_mem5 m3 oh sn, Ok)
+      end
+  | _, _ => Ret (cd_mem1 m nh nd, Ok)
+  end.
+
+(** createDisk from "info := r.info" on: the commit (volume.meta) and the deferred removal of the old head *)
+Definition cd_commit (g : cfg) (ma : mem) (old snap : option dname) (nh : dname) (nd : disk) : prog (mem * res) :=
+  let mc := cd_memc ma old nh in
+  let info' := set_head_info (m_info mc) (Some nh) true snap (d_rev nd) in
+  e5 <- encode_to_file g (IVol info') Vol ;;
+  if negb (is_ok e5) then
+    (if fix_commit g then
+       (* repair F11: volume.meta may already name the new head (only the directory sync failed) *)
+       Do (CReadFile Vol) (fun rv =>
+       match rv with
+       | RIno (IVol iv) =>
+           if odname_eqb (i_head iv) (Some nh)
+           then _ <- rm_disk old ;; Ret (set_info mc info', e5)
+           else cd_cleanup nh snap mc e5
+       | _ => cd_cleanup nh snap mc e5
+       end)
+     else cd_cleanup nh snap mc e5)
+  else
+  _ <- rm_disk old ;;                                         (* deferred, done = true; its error is only logged *)
+  Ret (set_info mc info', Ok).
+
+(** createDisk after createNewHead succeeded *)
+Definition cd_link (g : cfg) (m : mem) (old snap : option dname) (nh : dname) (nd : disk) (user : bool) (cr : N)
+  : prog (mem * res) :=
+  e2 <- link_disk old snap ;;
+  if negb (is_ok e2) then cd_cleanup nh snap m e2 else
+  mid <- cd_snapmeta g m old snap nh nd user cr ;;
+  let '(ma, e4) := mid in
+  if negb (is_ok e4) then cd_cleanup nh snap ma e4 else
+  cd_commit g ma old snap nh nd.
+
 Definition create_disk (g : cfg) (m : mem) (s : N) (user : bool) (cr : N) : prog (mem * res) :=
   e0 <- sync_dir ;;
   if negb (is_ok e0) then Ret (m, Failed) else
@@ -478,57 +550,41 @@ Definition create_disk (g : cfg) (m : mem) (s : N) (user : bool) (cr : N) : prog
   else
   match nhn with
   | None => Ret (m, Failed)                                   (* not reachable: success returns the name *)
-  | Some nh =>
-    let cleanup (m' : mem) (e : res) : prog (mem * res) :=
-      _ <- rm_disk (Some nh) ;; _ <- rm_disk snap ;; Ret (m', e) in
-    e2 <- link_disk old snap ;;
-    if negb (is_ok e2) then cleanup m e2 else
-    let m1 := set_disks m (updd (m_disks m) nh (Some nd)) in
-    (* if newSnapName != "" { ... } *)
-    mid <- match old, snap with
-           | Some oh, Some sn =>
-               let m2 := set_children m1 (add_child (m_children m1) (Some sn) nh) in
-               rv <- get_rev ;;
-               (* diskData[newSnap] = diskData[oldHead] (the same object), then Name/UserCreated/Created/RevisionCounter *)
-               match m_disks m2 oh with
-               | None => Abort Fatal                            (* nil dereference; not reachable with consistent memory *)
-               | Some x =>
-               let rec := mkdisk (d_parent x) (d_removed x) user cr rv in
-               let m3 := set_disks m2 (updd (updd (m_disks m2) sn (Some rec)) oh (Some rec)) in
-               e3 <- encode_to_file g (IDisk rec) (Meta sn) ;;
-               if negb (is_ok e3) then Ret (m3, Failed) else
-               let m4 := update_child m3 oh (Some sn) in
-               let m5 := set_active m4 (removelast (m_active m4) ++ [sn]) in
-               Ret (m5, Ok)
-               end
-           | _, _ => Ret (m1, Ok)
-           end ;;
-    let '(ma, e4) := mid in
-    if negb (is_ok e4) then cleanup ma e4 else
-    let mb := match old with Some oh => set_disks ma (updd (m_disks ma) oh None) | None => ma end in
-    let mc := set_active mb (m_active mb ++ [nh]) in
-    let info' := set_head_info (m_info mc) (Some nh) true snap (d_rev nd) in
-    e5 <- encode_to_file g (IVol info') Vol ;;
-    if negb (is_ok e5) then
-      (if fix_commit g then
-         (* repair F11: volume.meta may already name the new head (only the directory sync failed) *)
-         Do (CReadFile Vol) (fun rv =>
-         match rv with
-         | RIno (IVol iv) =>
-             if odname_eqb (i_head iv) (Some nh)
-             then _ <- rm_disk old ;; Ret (set_info mc info', e5)
-             else cleanup mc e5
-         | _ => cleanup mc e5
-         end)
-       else cleanup mc e5)
-    else
-    let md := set_info mc info' in
-    _ <- rm_disk old ;;                                       (* deferred, done = true; its error is only logged *)
-    Ret (md, Ok)
+  | Some nh => cd_link g m old snap nh nd user cr
   end.
 
 (** replica.go: updateParentDisk(child, name) and updateParentRevisionCounter(name), removeDiskNode *)
 Definition find_disk (m : mem) (d : dname) : bool := memd d (m_active m).
+
+(** removeDiskNode from "delete(r.diskData, name)" on: the in-memory bookkeeping *)
+Definition rdn_finish (g : cfg) (m3 : mem) (d : dname) : mem :=
+  let m4 := set_disks m3 (updd (m_disks m3) d None) in
+  let m4 := if fix_children g then set_children m4 (updc (m_children m4) (Some d) []) else m4 in
+  if negb (find_disk m4 d) then m4 else                       (* index <= 0: not in the live chain *)
+  (* r.volume.RemoveIndex(index) closes the file; len(activeDiskData)-2 == index: info.Parent *)
+  let m5 := match rev (m_active m4) with
+            | _ :: lat :: _ => if dname_eqb lat d
+                               then set_info m4 (set_iparent (m_info m4)
+                                      (match i_head (m_info m4) with Some h => parent_of m4 h | None => None end))
+                               else m4
+            | _ => m4
+            end in
+  set_active m5 (removed d (m_active m5)).
+
+(** updateParentRevisionCounter(name) *)
+Definition rdn_parent_rev (g : cfg) (m2 : mem) (dd : disk) : prog (mem * res) :=
+  match d_parent dd with
+  | None => Ret (m2, Ok)
+  | Some p =>
+      match m_disks m2 p with
+      | None => Abort Fatal
+      | Some pd =>
+          let pd' := mkdisk (d_parent pd) (d_removed pd) (d_user pd) (d_created pd) (d_rev dd) in
+          let m3 := set_disks m2 (updd (m_disks m2) p (Some pd')) in
+          e2 <- encode_to_file g (IDisk pd') (Meta p) ;;
+          Ret (m3, e2)
+      end
+  end.
 
 Definition remove_disk_node (g : cfg) (m : mem) (d : dname) : prog (mem * res) :=
   match m_disks m d with
@@ -549,33 +605,10 @@ Definition remove_disk_node (g : cfg) (m : mem) (d : dname) : prog (mem * res) :
               let m2 := set_disks m1 (updd (m_disks m1) child (Some cd')) in
               e1 <- encode_to_file g (IDisk cd') (Meta child) ;;
               if negb (is_ok e1) then Abort Fatal else        (* logrus.Fatalf *)
-              (* updateParentRevisionCounter(name) *)
-              m3e <- match d_parent dd with
-                     | None => Ret (m2, Ok)
-                     | Some p =>
-                         match m_disks m2 p with
-                         | None => Abort Fatal
-                         | Some pd =>
-                             let pd' := mkdisk (d_parent pd) (d_removed pd) (d_user pd) (d_created pd) (d_rev dd) in
-                             let m3 := set_disks m2 (updd (m_disks m2) p (Some pd')) in
-                             e2 <- encode_to_file g (IDisk pd') (Meta p) ;;
-                             Ret (m3, e2)
-                         end
-                     end ;;
+              m3e <- rdn_parent_rev g m2 dd ;;
               let '(m3, e2) := m3e in
               if negb (is_ok e2) then Abort Fatal else
-              let m4 := set_disks m3 (updd (m_disks m3) d None) in
-              let m4 := if fix_children g then set_children m4 (updc (m_children m4) (Some d) []) else m4 in
-              if negb (find_disk m4 d) then Ret (m4, Ok) else
-              (* r.volume.RemoveIndex(index) closes the file; len(activeDiskData)-2 == index: info.Parent *)
-              let m5 := match rev (m_active m4) with
-                        | _ :: lat :: _ => if dname_eqb lat d
-                                           then set_info m4 (set_iparent (m_info m4)
-                                                  (match i_head (m_info m4) with Some h => parent_of m4 h | None => None end))
-                                           else m4
-                        | _ => m4
-                        end in
-              Ret (set_active m5 (removed d (m_active m5)), Ok)
+              Ret (rdn_finish g m3 d, Ok)
           end
       end
   end.
